@@ -514,6 +514,11 @@ func (g *Gen) fixText(width int, pad byte, padLeft bool) string {
 	if width == 0 {
 		return ""
 	}
+	if width >= 3 && g.t.Intn(24) == 0 {
+		if w := dictWord(g.t, width); w != "" {
+			return w // letters and 1-9 only: canonical for every pad byte the protocols use
+		}
+	}
 	var n int
 	switch g.t.Intn(4) {
 	case 0:
@@ -556,6 +561,11 @@ func (g *Gen) varText(prefix int) string {
 	}
 	if cap_ == 0 {
 		return ""
+	}
+	if cap_ >= 3 && g.t.Intn(24) == 0 {
+		if w := dictWord(g.t, cap_); w != "" {
+			return w
+		}
 	}
 	var n int
 	switch g.t.Intn(7) {
@@ -1006,6 +1016,11 @@ func variantOf(v any, b *bulk) any {
 
 func varyText(sv reflect.Value, limit int, b *bulk) {
 	s := sv.String()
+	initCollisions()
+	if p, ok := collisionPartner[s]; ok && b.intn(4) != 0 {
+		sv.SetString(p) // the other text of a pair that collides under a common 32-bit hash
+		return
+	}
 	switch b.intn(4) {
 	case 0:
 		sv.SetString(s[:b.intn(len(s)+1)])
@@ -1132,4 +1147,46 @@ func breakForEncode(rv reflect.Value, ts *TypeSchema) bool {
 		setBits(discF, 0xFFFFFFFFFFFFFFF1)
 	}
 	return true
+}
+
+// ---------------------------------------------------------------- collision dictionary
+
+var collisionPartner map[string]string
+var collisionLens []int
+
+func initCollisions() {
+	if collisionPartner != nil {
+		return
+	}
+	collisionPartner = map[string]string{}
+	for l, ps := range collisionPairs {
+		collisionLens = append(collisionLens, l)
+		for _, p := range ps {
+			collisionPartner[p[0]] = p[1]
+			collisionPartner[p[1]] = p[0]
+		}
+	}
+	sortInts(collisionLens)
+}
+
+func sortInts(a []int) {
+	for i := 1; i < len(a); i++ {
+		for j := i; j > 0 && a[j] < a[j-1]; j-- {
+			a[j], a[j-1] = a[j-1], a[j]
+		}
+	}
+}
+
+// dictWord returns a dictionary text of at most limit bytes ("" if none fits).
+func dictWord(t *Tape, limit int) string {
+	initCollisions()
+	k := 0
+	for k < len(collisionLens) && collisionLens[k] <= limit {
+		k++
+	}
+	if k == 0 {
+		return ""
+	}
+	ps := collisionPairs[collisionLens[t.Intn(k)]]
+	return ps[t.Intn(len(ps))][t.Intn(2)]
 }
